@@ -11,7 +11,7 @@ from common import Verdict, tier as get_tier, seed as get_seed, RUN
 import model
 import replay as rp
 from concurrent.futures import ThreadPoolExecutor
-from vsim import tlc, scenarios as S
+from vsim import tlc, scenarios as S, world as W
 from vsim.explore import explore_dfs, explore_random, run_once
 from vsim.tracefile import BatchWriter
 
@@ -20,9 +20,9 @@ NB = 16
 # which failed clauses count for which property (label of the clause, or label:clause);
 # the second set applies only to runs of the failure family of scenarios
 CLAUSES = {
-    "C02": ({"C02"}, set()),
+    "C02": ({"C02", "C04:OutcomePreserved"}, set()),
     "C03": ({"C03"}, set()),
-    "C05": ({"C05"}, set()),
+    "C05": ({"C05", "C04:OutcomePreserved"}, set()),        # (the clause that compares a run with its prescribed outcome)
     "C06": ({"C06"}, {"C02", "C03", "C09:NothingAfterTerminal"}),
     "C09": ({"C09"}, set()),
     "C11": ({"C11", "C09:HistAgreesWithRecord"}, set()),    # "the last history event reports the same status": shared with C09
@@ -51,6 +51,10 @@ def fanout_scenarios(thorough):
                    inputs=([1, 2, 3],)))
     out.append(scn("nest-par-map", SM("P", P=Par([SM("M", M=Mp(SM("A", A=T("f", End=True)), MaxConcurrency=1, End=True)),
                                                   SM("B", B=T("g", End=True))], End=True)), inputs=([1, 2],)))
+    # a Map whose iterations start with a Map: the inner Map must not take the outer Map's batch range for its own
+    innerm = lambda mc: SM("N", N=dict(Mp(SM("I", I=P(End=True)), End=True), **({"MaxConcurrency": mc} if mc else {})))
+    for mco, mci, inp in ((1, 0, [[1], [2]]), (1, 1, [[1, 2], [3, 4]])) + (((2, 1, [[1, 2, 3], [4], [5, 6]]), (2, 0, [[1], [2], [3]])) if thorough else ()):
+        out.append(scn("map-map-mc%d-mc%d" % (mco, mci), SM("M", M=dict(Mp(innerm(mci), End=True), MaxConcurrency=mco)), inputs=(inp,)))
     out.append(scn("nest-map-par", SM("M", M=Mp(SM("Q", Q=Par([SM("A", A=T("f", End=True)), SM("B", B=P(End=True))], End=True)), End=True)),
                    inputs=([1, 2],)))
     return out
@@ -219,10 +223,33 @@ def run(prop, tier_name=None, replay=None):
     k = [0]
     complete = {}
 
+    expect_cache = {}
+
+    def expectations(s):
+        """C05 "the same output under every order": for a plain machine (no paths, templates, Retry/Catch, scripted task
+        outcomes) the States Language prescribes the output -- the positional join -- whatever the schedule"""
+        if s["id"] not in expect_cache:
+            out = []
+            try:
+                for st in s["starts"]:
+                    m = next(x for x in s["machines"] if x["name"] == st["machine"])
+                    if m.get("type", "STANDARD") != "STANDARD" or s.get("world", {}).get("hist_quota"):
+                        raise S.NotPlain("express")
+                    val = S.expected_output(m["asl"], st["input"], s.get("oracle"))
+                    out.append({"k": "expect", "fr": 0, "t": 0, "exec": W.exec_arn(st["machine"], st["name"]), "status": "SUCCEEDED",
+                                "output": json.dumps(val), "error": None, "strict": True})
+            except (S.NotPlain, KeyError, StopIteration):
+                out = []
+            expect_cache[s["id"]] = out
+        return expect_cache[s["id"]]
+
     def on_run(r, s):
         b = bws[k[0] % NB]
         k[0] += 1
-        tid = b.add_run(r.events, s["id"])
+        exp = expectations(s) if prop in ("C05", "C02") and not r.crash and not r.error else []
+        tid = b.add_run(r.events + exp, s["id"])
+        if exp:
+            counters["runs_with_prescribed_output"] += 1
         meta[(b.path, tid)] = (s["id"], list(r.schedule), r.crash)
         counters["runs"] += 1
         key = (s["id"], tuple(r.schedule))
